@@ -45,10 +45,10 @@ seed_tbl = "\n".join(rows)
 p = f"{R}/DESIGN.md"
 s = open(p).read()
 for name, body in (("CHECKS", checks_tbl), ("FINDINGS", kf_tbl), ("SEEDS", seed_tbl)):
-    pat = re.compile(rf"(<!-- BEGIN:{name} -->\n).*?(\n<!-- END:{name} -->)", re.S)
+    pat = re.compile(rf"(<!-- BEGIN:{name} -->\n).*?(<!-- END:{name} -->)", re.S)
     if not pat.search(s):
         print("marker missing:", name)
         continue
-    s = pat.sub(lambda m: m.group(1) + body + m.group(2), s)
+    s = pat.sub(lambda m: m.group(1) + body + "\n" + m.group(2), s)
 open(p, "w").write(s)
 print("DESIGN.md tables regenerated")
